@@ -53,11 +53,14 @@ def run_case(case, ctx):
 		out = os.path.join(d, 'out.csv')
 		if case['out_exists']:
 			open(out, 'w').write('SENTINEL\n')
-		kp = ['-k', str(E[0]), '-p', E[1]] if E else []
+		kp = ['-k', str(E[0]), '-p', (E[1].lower() if case.get('lower_prefix') else E[1])] if E else []
 		mismatch = False
 		eff = None          # effective spec for a successful run
 		expect = None       # ('dist', qsigs, rsigs, qlabels, rlabels) | ('query', qsigs) | ('create',)
 		db = ['-d', W.dir]
+		env = None
+		if case.get('db_via_env'):
+			db, env = [], {'GAMBIT_DB_PATH': W.dir}
 		if cmd in ('query_s', 'query_s_strict'):
 			args = db + ['query', '-s', qs_path, '-o', out, '--no-progress'] + (['--strict'] if cmd.endswith('strict') else [])
 			mismatch = Q != D
@@ -124,7 +127,7 @@ def run_case(case, ctx):
 		else:
 			raise ValueError(cmd)
 
-		res = run_cli(args)
+		res = run_cli(args, env=env)
 		desc = f'`gambit {" ".join(a if not a.startswith(d) else os.path.relpath(a, d) for a in args)}` (D={D}, Q={Q}, R={R}, E={E})'
 		if mismatch:
 			if res.exit_code == 0:
@@ -218,7 +221,8 @@ def gen_case(draw, tier):
 	else:
 		specE = list(draw(st.sampled_from(SPECS)))
 	return {'kind': 'cmd', 'world': w, 'specQ': specQ, 'specR': specR, 'specE': specE,
-	        'cmd': draw(st.sampled_from(COMMANDS)), 'out_exists': draw(st.booleans())}
+	        'cmd': draw(st.sampled_from(COMMANDS)), 'out_exists': draw(st.booleans()),
+	        'lower_prefix': draw(st.sampled_from([False, False, True])), 'db_via_env': draw(st.sampled_from([False, False, True]))}
 
 
 def strategy(tier):
